@@ -90,16 +90,22 @@ ev_token_bucket_update_(struct ev_token_bucket *bucket,
 		if (bucket->limit > cfg->maximum)
 			bucket->limit = cfg->maximum;
 
-	   But we're worried about overflow, so we do it like this:
+	   But we're worried about overflow, so we do it like this.
+	   A bucket that is already above its maximum (it was refilled by
+	   hand with a negative decrement) gets nothing more.
 	*/
 
-	if ((cfg->read_maximum - bucket->read_limit) / n_ticks < cfg->read_rate)
+	if (bucket->read_limit >= (ev_int64_t) cfg->read_maximum)
+		;
+	else if ((cfg->read_maximum - bucket->read_limit) / n_ticks < cfg->read_rate)
 		bucket->read_limit = cfg->read_maximum;
 	else
 		bucket->read_limit += n_ticks * cfg->read_rate;
 
 
-	if ((cfg->write_maximum - bucket->write_limit) / n_ticks < cfg->write_rate)
+	if (bucket->write_limit >= (ev_int64_t) cfg->write_maximum)
+		;
+	else if ((cfg->write_maximum - bucket->write_limit) / n_ticks < cfg->write_rate)
 		bucket->write_limit = cfg->write_maximum;
 	else
 		bucket->write_limit += n_ticks * cfg->write_rate;
